@@ -7,6 +7,12 @@ OneStart == {0}
 \* shortened accordingly (`Last <- ShortLast` in the cfg); the other start values are toured on the smaller rings
 ShortStarts == (H - NS - 1)..(H + 1)
 ShortStartsC == (H - NC - 1)..(H + 1)
+\* state constraint for the big submission rings: the application fills the slots in the order it got them
+\* (with free fill order the unfilled subsets alone give 2^NS states); the free order is covered by the
+\* smaller rings, the simulated behaviours and the explore / random runs
+InOrderFill ==
+    \A i, j \in 1..NS :
+        (want[i] # -1 /\ want[j] = -1 /\ sqSlot[j] # -1 /\ sqSlot[j] >= sqHead /\ sqSlot[j] < sqTail) => sqSlot[j] < want[i]
 ShortLast == H + (IF NS > NC THEN NS ELSE NC) + 2
 \* hide nothing: the monitor state is a function of the concrete state whenever the protocol is intact
 =============================================================================
